@@ -117,6 +117,9 @@ def check_case(case):
   built = G.build(shape, gin)
   sig = built.signature()
   labels = {'kind:' + shape['kind'], 'api:' + shape['api']}
+  if shape.get('configurable_base') and shape['api'] == 'configurable' and shape['kind'] in (
+      'class_init', 'class_new'):
+    labels.add('constructor-inherited-from-a-configurable-base')
   if shape.get('later_sibling') and shape.get('method_api') == 'register':
     labels.add('method-with-a-same-named-method-in-a-later-class')
   sel_full = built.selector
@@ -355,6 +358,9 @@ def strategy(draw):
     shape['api'] = 'external'
   if shape['kind'] == 'method' and draw(st.booleans()):
     shape['later_sibling'] = True
+  if shape['kind'] in ('class_init', 'class_new') and shape['api'] == 'configurable' and draw(
+      st.booleans()):
+    shape['configurable_base'] = True
   if shape['kind'] == 'function' and shape['api'] != 'configurable' and draw(st.integers(0, 2)) == 0:
     shape['also_as'] = 'c01first'       # the same function object, registered under this name first
   entries = draw(st.lists(_entry, min_size=0, max_size=4))
